@@ -525,3 +525,7 @@ CORPUS += [
     V("C19", "cvrp-load-data-no-normalisation", R + "cvrp/env.py", '        td_load.set("demand", td_load["demand"] / td_load["capacity"][:, None])\n', '', "C19.b"),
     V("C19", "eq-env-getstate-rename", "rl4co/envs/common/base.py", '        state = self.__dict__.copy()\n        state["rng"] = state["rng"].get_state()\n        return state', '        st = self.__dict__.copy()\n        st["rng"] = st["rng"].get_state()\n        return st', None),
 ]
+
+CORPUS += [
+    V("C04", "mtsp-reward-squeeze-batch-axis-again", R + "mtsp/env.py", 'return td["reward"].reshape(td.batch_size)', 'return td["reward"].squeeze(-1)', "C04.a"),
+]
